@@ -74,6 +74,8 @@ def _case(draw):
         d["ode_mod_terms"] = draw(st.sampled_from([
             [["H2", "0.5 * nH", ["H"]], ["H", "-1.0 * nH", ["H"]]],
             [["H2", "1.0e-17", ["H", "H"]], ["H2", "-2.0e-17", ["H2"]]],
+            [["H2", "1.0e-17", ["H", "H"]], ["H2", "-2.0e-17", ["H2"]]],
+            [["H", "-2.5e-17", ["H"]], ["H2", "0.5e-17", ["H"]], ["H", "1.5e-17", ["H2"]]],
             [["H", "-2.5e-17", ["H"]]],
         ]))
     else:
@@ -89,7 +91,7 @@ def _case(draw):
         d["ode_mod_terms"] = list(d["ode_mod_terms"]) + [["H2*", "1.0e-11 * nH", ["H2"]], ["H", "2.0e-9", ["H2*"]]]
         d["has_excited"] = True
     # several terms in one option are separated by ';' - a trailing ';' or an empty item between two separators (`a;;b`) adds no term
-    d["ode_split"] = draw(st.sampled_from(["one-option", "one-per-term", "one-option-trailing-separator", "one-option-empty-item"]))
+    d["ode_split"] = draw(st.sampled_from(["one-option", "one-per-term", "one-per-term", "one-per-term", "one-option-trailing-separator", "one-option-empty-item"]))
     d["spacing"] = {k: draw(st.sampled_from(["", " "])) for k in ("list", "table", "kv", "terms")}
     return d
 
@@ -625,6 +627,8 @@ def check_case(case, tier):
         labels.append(f"ode-modifier-{d['ode_split']}")
     if d.get("has_excited"):
         labels.append("modifier-over-an-excited-species")
+    if d["ode_split"] == "one-per-term" and len({t[0] for t in d["ode_mod_terms"]}) < len(d["ode_mod_terms"]):
+        labels.append("same-species-in-two-ode-modifier-options")
     if d["bulk"] != "@":
         labels.append("non-default-bulk-prefix")
     if any(d["spacing"].values()):
